@@ -4,6 +4,7 @@ import (
 	"bytes"
 	"fmt"
 	"io"
+	"unicode/utf8"
 
 	"github.com/vmihailenco/msgpack/v5"
 	msgpackcodes "github.com/vmihailenco/msgpack/v5/msgpcode"
@@ -121,6 +122,9 @@ func impliedObjectType(dec *msgpack.Decoder) (cty.Type, error) {
 		k, err := dec.DecodeString()
 		if err != nil {
 			return cty.DynamicPseudoType, err
+		}
+		if !utf8.ValidString(k) {
+			return cty.DynamicPseudoType, fmt.Errorf("object key is not valid UTF-8")
 		}
 
 		aty, err := impliedType(dec)
